@@ -45,3 +45,46 @@ impl From<Vec<Variable>> for Variable {
     #[verifier::external_body]
     fn from(v: Vec<Variable>) -> (r: Variable) { unimplemented!() }
 }
+
+// ----- partition (`it \\ p`) ---------------------------------------------------------------------------------------
+/// p(x) returned `true` (anything else, including another value, sends x to the second array)
+pub open spec fn accepted(p: FunV, x: Variable) -> bool { fun_call_res(p, seq![x]) == Ok::<Variable, ExecError>(Variable::Bool(true)) }
+/// the xi with p(xi), in order / the others, in order
+pub open spec fn part_yes(p: FunV, xs: Seq<Variable>) -> Seq<Variable> decreases xs.len() {
+    if xs.len() == 0 { Seq::empty() } else {
+        let r = part_yes(p, xs.drop_last());
+        if accepted(p, xs.last()) { r.push(xs.last()) } else { r }
+    }
+}
+pub open spec fn part_no(p: FunV, xs: Seq<Variable>) -> Seq<Variable> decreases xs.len() {
+    if xs.len() == 0 { Seq::empty() } else {
+        let r = part_no(p, xs.drop_last());
+        if accepted(p, xs.last()) { r } else { r.push(xs.last()) }
+    }
+}
+pub uninterp spec fn spec_fun_type(f: FunV) -> Type;
+pub uninterp spec fn spec_iter_element(t: Type) -> Option<Type>;
+impl FunV {
+    /// Typed::as_type of a function value - not verified
+    #[verifier::external_body]
+    pub fn as_type(&self) -> (r: Type) ensures r == spec_fun_type(*self) { unimplemented!() }
+}
+impl Type {
+    /// Type::iter_element - not verified (C10 territory)
+    #[verifier::external_body]
+    pub fn iter_element(&self) -> (r: Option<Type>) ensures r == spec_iter_element(*self) { unimplemented!() }
+}
+pub assume_specification<T> [core::slice::from_ref::<T>] (s: &T) -> (r: &[T])
+    ensures r@ == seq![*s];
+// Vec<Variable> -> Arc<[Variable]> (std: the same elements in order)
+impl vstd::std_specs::convert::FromSpecImpl<Vec<Variable>> for Tup {
+    open spec fn obeys_from_spec() -> bool { true }
+    open spec fn from_spec(v: Vec<Variable>) -> Tup { Tup { elems: Ghost(v@) } }
+}
+impl From<Vec<Variable>> for Tup { #[verifier::external_body] fn from(v: Vec<Variable>) -> (r: Tup) { unimplemented!() } }
+// [Variable; 2] -> Arc<[Variable]>
+impl vstd::std_specs::convert::FromSpecImpl<[Variable; 2]> for Tup {
+    open spec fn obeys_from_spec() -> bool { true }
+    open spec fn from_spec(v: [Variable; 2]) -> Tup { Tup { elems: Ghost(v@) } }
+}
+impl From<[Variable; 2]> for Tup { #[verifier::external_body] fn from(v: [Variable; 2]) -> (r: Tup) { unimplemented!() } }
